@@ -99,11 +99,10 @@ def main():
                             o["stdout_not_empty_with_o"] = True
                     else:
                         text = res.stdout
-                        # typer.echo adds exactly one newline
+                        # "prints exactly the text": with or without the one newline echo adds
+                        o["digest_raw"] = _digest(text)
                         if text.endswith("\n"):
                             text = text[:-1]
-                        else:
-                            o["no_trailing_newline"] = True
                     o["outcome"] = "text"
                     o["digest"] = _digest(text)
                     o["len"] = len(text)
